@@ -259,8 +259,8 @@ def check_enum(cx, fn, rep, facts):
         S.bad('SUM-EQ', 'enum-match', 'the body is not `match self { #arms }`', msite)
         return
     # guard of the match: only "arms not empty"
-    g = [a for a in S.atoms(msite)]
-    if not (len(g) == 1 and g[0][0] == 'empty' and g[0][2] is False):
+    g = [a for a in S.atoms(msite) if not (a[0] == 'data' and a[1] == 'Enum' and a[2] is True)]
+    if not (len(g) == 1 and __import__('sa.emptiness', fromlist=['nonempty_evidence']).nonempty_evidence(g, S.cx, S.fw)):
         S.bad('SUM-EQ', 'enum-match-guard', 'the `match self` is emitted under %s (expected: only when there is at least one variant)' % [atom_s(a) for a in g], msite)
         return
     arms_hole = marker_of_pat(e['arms'][0]['pat'])
